@@ -842,6 +842,54 @@ func EnumConvert(p *core.Prog, r *core.Report) {
 			ok, why = false, "the value converted is not the instance, or the target type is not the type of the member compared"
 		}
 	})
+	// a null member (TypeOf(member) == nil) matches the null instance and nothing else
+	nullOK := false
+	for _, b := range f.Blocks {
+		ret, isRet := b.Instrs[len(b.Instrs)-1].(*ssa.Return)
+		if !isRet || len(ret.Results) != 1 || returnsErrorResult(ret.Results[0], 0) {
+			continue
+		}
+		typeNil, dataNil := false, false
+		for _, cd := range core.CondsAt(b) {
+			bo, isBo := cd.Value.(*ssa.BinOp)
+			if !isBo || !((bo.Op == token.EQL && cd.Sense) || (bo.Op == token.NEQ && !cd.Sense)) {
+				continue
+			}
+			for _, pair := range [][2]ssa.Value{{bo.X, bo.Y}, {bo.Y, bo.X}} {
+				if !core.IsNilConst(pair[1]) {
+					continue
+				}
+				if _, isT := isCallOf(pair[0], "reflect.TypeOf"); isT {
+					typeNil = true
+				}
+				if through(pair[0]) == ssa.Value(data) {
+					dataNil = true
+				}
+			}
+		}
+		if typeNil && dataNil {
+			nullOK = true
+		}
+	}
+	if nullOK {
+		r.OK(rule, "basicCommonValidator:null-member", p.Pos(f.Pos()), "a null member accepts exactly the null instance")
+	} else {
+		r.Bad(rule, "basicCommonValidator:null-member", p.Pos(f.Pos()), "a null enum member is skipped and never matches: {\"enum\": [null, 1]} rejects null")
+	}
+	// the conversion must not be able to change the value compared
+	lossy := ""
+	core.EachInstr(f, func(i ssa.Instruction) {
+		if c, is := i.(*ssa.Call); is {
+			if g := core.StaticCallee(c); g != nil && core.QualName(g) == "reflect.Value.Convert" && !convertIsExact(c) {
+				lossy = p.Pos(c.Pos())
+			}
+		}
+	})
+	if lossy == "" {
+		r.OK(rule, "basicCommonValidator:lossy-conversion", p.Pos(f.Pos()), "no value-changing conversion decides membership")
+	} else {
+		r.Bad(rule, "basicCommonValidator:lossy-conversion", lossy, "the instance is converted to the member's Go type (guarded by ConvertibleTo only) before it is compared: the conversion truncates, wraps and rounds, and turns integers into strings — int64(9007199254740993) is accepted for the enum [9007199254740992], 2.5 for [1, 2, 3] given as Go ints, int64(257) for [int8(1)], 97 for [\"a\"]")
+	}
 	if n > 0 && ok {
 		r.OK(rule, "basicCommonValidator", p.Pos(f.Pos()), "DeepEqual(ValueOf(data).Convert(TypeOf(member)).Interface(), member)")
 	} else {
